@@ -14,7 +14,7 @@ from vf.taps.montap import montap
 
 LEVEL = "fault_enumeration"
 RULE = (
-    "fault enumeration: valid generated programs (a third of them with runs of statements moved into (nested) .include files) x 69 classes of definite error (invalid characters incl. NUL / DEL / non-ASCII, unterminated string, unknown keyword, "
+    "fault enumeration: valid generated programs (a third of them with runs of statements moved into (nested) .include files) x 74 classes of definite error (invalid characters incl. NUL / DEL / non-ASCII, unterminated string, unknown keyword, "
     "missing brace, a brace closed once too often, a macro defined only in a branch / loop that is not assembled or below its application, a byte that is no valid UTF-8 inside a source file (file entry points), a misspelled .map attribute, missing operand, undefined symbol in a sized operand / in data, undefined macro, too few macro arguments, undefined symbol in a macro argument the body never reads, in an unused `=` symbol, in `*=`, unsupported "
     "addressing mode, unsupported width, out-of-range branch, unmapped address, missing .include/.incbin/.table/.include_ips file) inserted "
     "at every statement position that is always expanded (thorough) or 6 positions (quick) x 5 entry points (string API, Program.assemble, "
@@ -42,6 +42,12 @@ FAULTS = {
     "undefined_macro": ("semantic", "nomacro_zz9(1)"),
     "too_few_macro_arguments": ("semantic", ".macro twoargs_zz9(pa, pb) {\n.db pa, pb\n}\ntwoargs_zz9(1)"),
     "unsupported_addressing_mode": ("semantic", "nop #1"),
+    "index_after_immediate": ("semantic", "lda #0x10,x"),
+    "index_after_immediate_symbol": ("semantic", "limit_zz9 = 3\ncmp.b #limit_zz9, y"),
+    # a named scope declared inside a block / macro body / loop is that block's: its members are unknown outside
+    "qualified_name_of_scope_declared_in_a_block": ("semantic", "{\n.scope inq_zz9 {\nlq_zz9:\nnop\n}\n}\n.dw inq_zz9.lq_zz9"),
+    "qualified_name_of_scope_declared_in_a_macro": ("semantic", ".macro mkq_zz9() {\n.scope inq_zz9 {\nlq_zz9:\nnop\n}\n}\nmkq_zz9()\njmp.w inq_zz9.lq_zz9"),
+    "qualified_name_of_scope_declared_in_a_loop": ("semantic", ".for kq_zz9 := 0, 1 {\n.scope inq_zz9 {\nvq_zz9 = 5\n}\n}\n.db inq_zz9.vq_zz9"),
     "double_index_upper_inner_register": ("semantic", "lda (0x10,X),y"),
     "double_index_all_upper": ("semantic", "LDA (0x10,X),Y"),
     "double_index_y_upper": ("semantic", "eor (0x20,Y),Y"),
